@@ -101,11 +101,11 @@ type c05Env struct {
 	// lets through and its hashing code cannot handle: the block has no body root, so nothing may be signed
 	unhashable bool
 	// prior: the same proposer service has prepared another validator's proposal for the previous slot (same epoch)
-	prior      bool
-	acct2      *hAccount
-	gotReveal  phase0.BLSSignature
-	relays     []*c05Relay
-	acct     *hAccount
+	prior     bool
+	acct2     *hAccount
+	gotReveal phase0.BLSSignature
+	relays    []*c05Relay
+	acct      *hAccount
 
 	proposal  *api.VersionedProposal
 	randao    []string
